@@ -180,6 +180,17 @@ func genC03(t *rapid.T) any {
 		}
 		c.Aggs = append(c.Aggs, it)
 	}
+	if rapid.IntRange(0, 3).Draw(t, "sameleaf") == 0 {
+		// the same aggregate over two columns that share their last path element (ox.v / oy.v): each call ranges
+		// over its own argument
+		for r, row := range rows {
+			rm := row.(map[string]any)
+			rm["ox"] = map[string]any{"v": rapid.SampledFrom([]float64{1, 2, 5, 10}).Draw(t, fmt.Sprintf("sameleaf.r%d.x", r))}
+			rm["oy"] = map[string]any{"v": rapid.SampledFrom([]float64{-3, 0.5, 7, 100}).Draw(t, fmt.Sprintf("sameleaf.r%d.y", r))}
+		}
+		fn := rapid.SampledFrom([]string{"SUM", "MIN", "MAX", "AVG", "COUNT"}).Draw(t, "sameleaf.fn")
+		c.Aggs = append(c.Aggs, AggItem{Fn: fn, Col: "ox.v", Alias: "sx"}, AggItem{Fn: fn, Col: "oy.v", Alias: "sy"})
+	}
 	// where over value and grouping columns
 	if rapid.IntRange(0, 1).Draw(t, "haswhere") == 0 {
 		tb := &Table{}
@@ -363,8 +374,8 @@ func refAgg(fn, col string, members []any) any {
 	}
 	var vals []float64
 	for _, m := range members {
-		v, ok := m.(map[string]any)[col]
-		if !ok || v == nil {
+		v, _ := sq.Lookup(m, col) // a plain column or a path into a nested object
+		if v == nil {
 			continue
 		}
 		vals = append(vals, v.(float64))
